@@ -386,12 +386,14 @@ func mutateBytes(b []byte, mu Mut, kind string) ([]byte, string) {
 			// rewrite the zstd frame header: descriptor byte and declared
 			// content size ("huge lengths")
 			if n >= 6 {
-				fhd := []byte{0xC0, 0xE0, 0x80, 0xA0, 0x40, 0x60, 0x20, 0x00, byte(mu.C)}[mu.A%9]
+				fhd := []byte{0xC0, 0xC0, 0xC0, 0xE0, 0x80, 0xA0, 0x40, 0x60, 0x20, 0x00, byte(mu.C)}[mu.A%11]
 				hdr := []byte{b[0], 0x28, 0xB5, 0x2F, 0xFD, fhd}
 				if fhd&0x20 == 0 {
 					hdr = append(hdr, byte(mu.C%256)) // window descriptor
 				}
-				v := ext[mu.B%len(ext)]
+				// declared content sizes around the decoder's own limits
+				sizes := []uint64{1 << 36, (1 << 36) - 1, 1 << 36, 1 << 35, 3 << 34, 1 << 32, 1 << 31, 1 << 30, 300 << 20, math.MaxUint64, 0, 1, (1 << 36) + 1}
+				v := sizes[mu.B%len(sizes)]
 				switch fhd >> 6 {
 				case 3:
 					hdr = binary.LittleEndian.AppendUint64(hdr, v)
